@@ -303,7 +303,7 @@ func runC06(c *Ctx) {
 		if rf.inKeyIf == nil {
 			r.Fail("R6.2", "Reader.Read InKey test", c.Pos(rf.fn.Pos()), "no `r.InKey != nil` test in Reader.Read: signatures are never required")
 		} else {
-			start := rf.inKeyIf.Block().Succs[0]
+			start := rf.inKeyIf.Block().Succs[rf.keyIdx]
 			succReach := func(cut edge) string {
 				reach := reachFrom(start, map[edge]bool{cut: true}, nil)
 				for _, ret := range retInstrs(rf.fn) {
@@ -323,9 +323,9 @@ func runC06(c *Ctx) {
 				miss string
 			}
 			gates := []gate{
-				{"v2 type test", rf.v2If, 0, "no `f.(*V2Frame)` test under the incoming key: v1 frames bypass signing"},
-				{"signature present", rf.sigNilIf, 1, "no `Signature == nil` test: unsigned v2 frames would dereference a nil signature or bypass the check"},
-				{"signature comparison", rf.sigIf, 1, "no whole-array comparison `*GenerateSignature(InKey) != *Signature`: frames are accepted without a valid signature"},
+				{"v2 type test", rf.v2If, rf.v2Idx, "no `f.(*V2Frame)` test under the incoming key: v1 frames bypass signing"},
+				{"signature present", rf.sigNilIf, rf.sigHereIdx, "no `Signature == nil` test: unsigned v2 frames would dereference a nil signature or bypass the check"},
+				{"signature comparison", rf.sigIf, rf.sigOKIdx, "no whole-array comparison `*GenerateSignature(InKey) != *Signature`: frames are accepted without a valid signature"},
 			}
 			for _, g := range gates {
 				key := "Reader.Read " + g.name
@@ -334,11 +334,24 @@ func runC06(c *Ctx) {
 					continue
 				}
 				w := succReach(edge{g.iff.Block(), g.iff.Block().Succs[g.pass]})
-				okFail := false
+				// the failing edge leads only to returns of (no frame, a ReadError)
 				fb := g.iff.Block().Succs[1-g.pass]
-				if ret, ok := fb.Instrs[len(fb.Instrs)-1].(*ssa.Return); ok && len(ret.Results) == 2 && isNilConst(ret.Results[0]) && strings.Contains(ex(ret.Results[1]), "frame.newError") {
-					okFail = true
+				okFail := true
+				nRet := 0
+				for blk := range reachFrom(fb, nil, nil) {
+					ret, isRet := blk.Instrs[len(blk.Instrs)-1].(*ssa.Return)
+					if !isRet {
+						continue
+					}
+					nRet++
+					if len(ret.Results) != 2 || !isNilConst(ret.Results[0]) || isNilConst(ret.Results[1]) {
+						okFail = false
+					}
 				}
+				if fret, isRet := fb.Instrs[len(fb.Instrs)-1].(*ssa.Return); isRet && !strings.Contains(ex(fret.Results[1]), "frame.newError") {
+					okFail = false
+				}
+				okFail = okFail && nRet > 0
 				inRegion := reachFrom(start, nil, nil)[g.iff.Block()] || g.iff.Block() == start
 				r.Check(w == "" && okFail && inRegion, "R6.2", key, c.Pos(g.iff.Pos()), "delivery only through the pass edge; the failing edge returns a ReadError",
 					fmt.Sprintf("with an incoming key, %s without passing the %s (failing edge returns ReadError: %v)", orStr(w, "delivery is not gated"), g.name, okFail))
@@ -732,7 +745,7 @@ func runC07(c *Ctx) {
 		if cur != "recv.curReadSignatureTime" {
 			probs = append(probs, "right operand is not the reader's remembered maximum: "+cur)
 		}
-		if rf.sigIf == nil || !edgeMustPass(fn, edge{rf.sigIf.Block(), rf.sigIf.Block().Succs[1]}, winIf.Block()) {
+		if rf.sigIf == nil || !edgeMustPass(fn, edge{rf.sigIf.Block(), rf.sigIf.Block().Succs[rf.sigOKIdx]}, winIf.Block()) {
 			probs = append(probs, "the window test is reachable without the signature comparison having passed")
 		}
 		r.Check(len(probs) == 0, "R7.2", "Reader.Read window test", c.Pos(winIf.Pos()), "ts + 1000000 < cur (strict), after signature verification", strings.Join(probs, "; "))
@@ -766,7 +779,7 @@ func runC07(c *Ctx) {
 			if !mono {
 				probs = append(probs, "the store is not on the true edge of `ts > cur`: the remembered maximum can decrease")
 			}
-			if rf.sigIf == nil || !edgeMustPass(fn, edge{rf.sigIf.Block(), rf.sigIf.Block().Succs[1]}, st.Block()) {
+			if rf.sigIf == nil || !edgeMustPass(fn, edge{rf.sigIf.Block(), rf.sigIf.Block().Succs[rf.sigOKIdx]}, st.Block()) {
 				probs = append(probs, "the window moves before the signature was verified")
 			}
 			if winIf != nil {
@@ -1175,7 +1188,8 @@ func runC09(c *Ctx) {
 			case fnLocalName(fn) == "Node.encodeMessage":
 				ok = isv2 == "(recv.OutVersion == 2)"
 			default:
-				ok = strings.HasSuffix(isv2, ".(*frame.V2Frame)?#1") && strings.Contains(ex(a[1]), strings.TrimSuffix(isv2, ".(*frame.V2Frame)?#1"))
+				fr := versionOfFrame(fn, ci, a[2])
+				ok = fr != "" && strings.Contains(ex(a[1]), fr)
 			}
 			r.Check(ok, "R9.5", key, c.Pos(ci.Pos()), "isV2 = "+isv2, "the protocol version passed to the message encoder ("+isv2+") is not derived from the frame being encoded / the configured output version")
 		}
@@ -1268,4 +1282,37 @@ func emptyPrefix(v ssa.Value) bool {
 		}
 	}
 	return false
+}
+
+// versionOfFrame: isv2 — the protocol-version argument of an mp.Write call — is derived from the type of the frame
+// whose message is being encoded: either the comma-ok result of F.(*frame.V2Frame), or a constant inside the branch
+// of a type test / type switch on F that fixes the frame kind (true under F.(*V2Frame), false under F.(*V1Frame)).
+// Returns the rendering of F, "" if the provenance is not of that form.
+func versionOfFrame(fn *ssa.Function, call ssa.CallInstruction, isv2 ssa.Value) string {
+	s := ex(isv2)
+	if strings.HasSuffix(s, ".(*frame.V2Frame)?#1") {
+		return strings.TrimSuffix(s, ".(*frame.V2Frame)?#1")
+	}
+	c, ok := isv2.(*ssa.Const)
+	if !ok {
+		return ""
+	}
+	want := "*frame.V1Frame"
+	if s == "true" {
+		want = "*frame.V2Frame"
+	} else if s != "false" {
+		return ""
+	}
+	_ = c
+	for _, iff := range ifsIn(fn) {
+		for v, idx := range condVariants(iff.Cond) {
+			if !strings.HasSuffix(v, ".("+want+")?#1") || strings.HasPrefix(v, "!") {
+				continue
+			}
+			if edgeMustPass(fn, edge{iff.Block(), iff.Block().Succs[idx]}, call.Block()) {
+				return strings.TrimSuffix(v, ".("+want+")?#1")
+			}
+		}
+	}
+	return ""
 }
